@@ -36,11 +36,30 @@ def run(ctx):
     gridT = 8
     res = tlc.run("BrownianValues", timeout=900, workers=2, cfg_text=(
         f"SPECIFICATION Spec\nCONSTANTS LMax = {16 if quick else 40} GridT = {gridT}\n"
-        "INVARIANT InvLemma\nINVARIANT InvStats\nINVARIANT InvTable\nCHECK_DEADLOCK FALSE\n"))
-    ctx.add_tlc(res, "BrownianValues: split lemma, covariance definition, Levy variances; prints tables")
+        f"CONSTANT LinkK = {5 if quick else 10}\n"
+        "INVARIANT InvLemma\nINVARIANT InvLink\nINVARIANT InvStats\nINVARIANT InvTable\nCHECK_DEADLOCK FALSE\n"))
+    ctx.add_tlc(res, "BrownianValues: split lemma, link to the cleared-denominator polynomials (h, S free), covariance "
+                     "definition, Levy variances; prints tables")
     if not res.ok:
         ctx.violation(dict(kind="spec", invariant=res.violated), "law lemma violated in the specification")
         return
+    # the single-split lemma for ALL l, r (not only TLC's grid): TLAPS proves the cleared-denominator identities
+    # that InvLink ties to the coefficient formulas; a wrong coefficient must make a proof obligation fail
+    # (thorough tier: tlapm needs 20-70 s)
+    if not quick:
+        from harness import tlaps
+        pr = tlaps.run("SplitLemmaProof", timeout=900)
+        ctx.notes["tlaps_split_lemma"] = pr.summary()
+        if not pr.ok:
+            raise tlc.TLCMachineryError(f"SplitLemmaProof: {pr.failed}/{pr.obligations} obligations failed\n{pr.output[-1500:]}")
+        import os as _os
+        src = open(_os.path.join(tlc.SPEC_DIR, "SplitPolys.tla")).read()
+        assert "3*h*l*l*r*r" in src
+        mut = src.replace("P_WlWl(l, r, h, S) == h*h*h*l*l + 3*h*l*l*r*r", "P_WlWl(l, r, h, S) == h*h*h*l*l + 5*h*l*l*r*r")
+        prm = tlaps.run("SplitLemmaProof", extra_modules={"SplitPolys": mut}, timeout=900)
+        ctx.notes["tlaps_split_lemma_wrong_coefficient"] = prm.summary()
+        if prm.failed == 0:
+            raise tlc.TLCMachineryError("SplitLemmaProof with a wrong coefficient was proved: the proof is vacuous")
     cov = levytab = None
     for p in res.printed:
         if p["kind"] == "cov":
